@@ -13,7 +13,7 @@ import ast
 
 from ..core import Ctx, Ob, ok, unres, viol
 from ..flow import LocalDefs
-from ..model import AnalysisError, unparse
+from ..model import AnalysisError, unparse, walk_no_nested
 
 
 def _scope_singleton(e: ast.AST) -> ast.AST | None:
@@ -485,4 +485,30 @@ def r13f(ctx: Ctx, modules: tuple[str, ...] = ("cirkit.templates",)) -> list[Ob]
                 else:
                     out.append(unres("R13f", f.qualname, inst, f"block size {K} could not be related to the generators of `{n.value.id}`", site))
     out.append(ok("R13f", "cirkit.templates", "block-slices", f"{n_fn} template functions scanned", "", nontrivial=False))
+    return out
+
+
+# ------------------------------------------------------------------------------------------ R13g
+def r13g(ctx: Ctx, module: str = "cirkit.templates.data_modalities") -> list[Ob]:
+    """R13g -- the default sum weights of the data-modality templates are softmax-normalised.
+
+    ``image_data`` / ``tabular_data`` document 'softmax' as the default parameterisation of the sum
+    weights; a default that is only normalised *at initialisation* (a Dirichlet draw without
+    activation) passes every check on the freshly compiled circuit and stops summing to one after the
+    first optimiser step.  Each ``sum_weight_param = Parameterization(..)`` default has
+    ``activation="softmax"``."""
+    out: list[Ob] = []
+    for f in ctx.repo.iter_functions():
+        if f.module.name != module:
+            continue
+        for n in walk_no_nested(f.node):
+            if isinstance(n, ast.Assign) and len(n.targets) == 1 and isinstance(n.targets[0], ast.Name) and n.targets[0].id in ("sum_weight_param",) and isinstance(n.value, ast.Call) and unparse(n.value.func).endswith("Parameterization"):
+                act = next((k.value for k in n.value.keywords if k.arg == "activation"), None)
+                site = f"{f.module.relpath}:{n.lineno}"
+                if isinstance(act, ast.Constant) and act.value == "softmax":
+                    out.append(ok("R13g", f.qualname, "default-sum-weights", "softmax", site))
+                else:
+                    out.append(viol("R13g", f.qualname, "default-sum-weights", f"the default parameterisation of the sum weights is `{unparse(n.value)[:70]}`: without the softmax activation the rows are normalised at most at initialisation, and the partition function leaves 1 with the first parameter update", site))
+    if not out:
+        out.append(unres("R13g", module, "default-sum-weights", "no default Parameterization for sum weights found", ""))
     return out
